@@ -121,7 +121,7 @@ func GoEnv(extra ...string) []string {
 	env := []string{
 		"PATH=" + GoBin + ":" + os.Getenv("PATH"),
 		"HOME=" + os.Getenv("HOME"),
-		"GOTOOLCHAIN=local", "GOPROXY=off", "GOSUMDB=off", "GOFLAGS=-mod=mod",
+		"GOTOOLCHAIN=local", "GOPROXY=off", "GOSUMDB=off", "GOFLAGS=-mod=mod -trimpath",
 		"GOCACHE=" + goCache(), "GOMODCACHE=" + goModCache(),
 		"CGO_ENABLED=0",
 	}
